@@ -722,10 +722,13 @@ def apply_ops(sim, ops):
                 for a_ in ("x", "y", "z", "vx", "vy", "vz"):
                     setattr(p_, a_, getattr(p_, a_) * 1e120 + 1e105)
         elif op == "until_merge":
-            n0 = sim.N
+            # the event "a collision was resolved in the step right before": a merge lowers N, the hard-sphere resolver
+            # only counts (collisions_log_n).  Bounded in dt as well: IAS15 without forces quadruples dt every step and
+            # the periodic wrap then loops |x| / boxsize times (practically a hang) after a few dozen steps
+            n0, c0, dt0 = sim.N, sim.collisions_log_n, abs(sim.dt)
             for _ in range(60):
                 sim.steps(1)
-                if sim.N < n0:
+                if sim.N < n0 or sim.collisions_log_n > c0 or abs(sim.dt) > 1e3 * dt0:
                     break
         elif op.startswith("switch:"):
             sim.integrator = op.split(":")[1]
